@@ -185,6 +185,19 @@ theorem validAlloc_sound (ops : List AOp) (lo : List RSet) (col : Reg → Option
     lo.length = ops.length ∧ NoClobber ops lo col ∧ Located ops lo col K :=
   validAlloc_spec h
 
+/-- The end-to-end checker of one colouring round is sound: if `validRound` accepts, then the
+COMPOSED location map (coalescing renaming `m`, then pool register `col`) is a clobber-free, total
+allocation of the op list `pre` the round started from — a wrong merge by `coalesce_registers` shows
+up as a clobber in `pre`, a wrong colour too. (`coalesceMatches`, the second half of the checker,
+only states that the final ops are the renamed `pre` minus self-moves.) -/
+theorem validRound_sound (pre : List AOp) (lo : List RSet) (m : RegMap) (col : Reg → Option Nat)
+    (K : Nat) (fin : List AOp) (h : validRound pre lo m col K fin = true) :
+    lo.length = pre.length ∧ NoClobber pre lo (fun r => col (rep m r)) ∧
+      Located pre lo (fun r => col (rep m r)) K := by
+  unfold validRound at h
+  simp only [Bool.and_eq_true] at h
+  exact validAlloc_spec h.1
+
 /-- Simulation (colouring stage). For ARBITRARY op semantics `sem` that reads only `uses`, writes
 only `defs ++ defConst` and implements MOVE as a copy (`SemOk`), any solution `li, lo` of the
 liveness inequations and any clobber-free, total colouring: every step of the virtual-register
